@@ -414,16 +414,36 @@ func (c *Ctx) c15Restore() {
 					continue
 				}
 				f := st.Fn
-				fo := c.P.OriginsOf(f)
 				okWrap, whyW := true, ""
-				for _, r := range Returns(f) {
-					if !fo.IsFailureReturn(r) {
+				// (the method and the helpers new on this tree whose error it hands on, each read in place)
+				type fr struct {
+					fo *Origins
+					r  *ssa.Return
+				}
+				var frs []fr
+				for _, g := range c.OpFuncs(f) {
+					if g.Parent() != nil {
 						continue
 					}
+					go2 := c.P.OriginsOf(g)
+					for _, r := range Returns(g) {
+						if go2.IsFailureReturn(r) {
+							frs = append(frs, fr{go2, r})
+						}
+					}
+				}
+				for _, x := range frs {
+					fo, r := x.fo, x.r
 					e := fo.Of(r.Results[len(r.Results)-1])
 					for _, a := range e.Alts() {
 						if a.K == "call" && a.Call != nil && strings.HasPrefix(c.P.Describe(a.Call).Name, "database/sql.") {
 							continue // the driver's error itself
+						}
+						if a.K == "call" && a.Call != nil && c.P.IsNewFunc(a.Call.Common().StaticCallee()) {
+							continue // the error of a helper examined itself
+						}
+						if a.K == "call" && a.Call != nil && a.Call.Common().IsInvoke() && a.Call.Common().Method.Name() == "Scan" {
+							continue // Scan through the module's row interface
 						}
 						if isCall(a, "fmt.Errorf") && strings.Contains(arg(a, 0).String(), "%w") {
 							continue
